@@ -48,6 +48,22 @@ fn serialise(p: &Program, cfg: &WCfg) -> Result<Vec<u8>, String> {
     Ok(buf)
 }
 
+/// The SAME `Document` value written twice by two writers (the first clause of the property taken
+/// literally): returns both outputs.
+fn serialise_same_value_twice(p: &Program, cfg: &WCfg) -> Result<(Vec<u8>, Vec<u8>), String> {
+    let mut doc = build_document(p)?;
+    let mut out = vec![];
+    for _ in 0..2 {
+        let mut buf = Vec::new();
+        let mut w = PdfWriter::with_config(&mut buf, cfg.to_config());
+        w.write_document(&mut doc).map_err(|e| format!("write_document: {}", e))?;
+        drop(w);
+        out.push(buf);
+    }
+    let b = out.pop().unwrap();
+    Ok((out.pop().unwrap(), b))
+}
+
 /// Overwrite the digits of every date value (PDF date strings after /CreationDate and /ModDate,
 /// XMP date elements) with '0' so that equal-length dates compare equal.
 pub fn mask_dates(bytes: &[u8]) -> Vec<u8> {
@@ -164,6 +180,29 @@ impl Property for C20 {
                 nc.entropies = vec![*e0, *e];
                 nc.clock_step_ns = 0;
                 total.refined = Some(serde_json::to_value(&nc).unwrap());
+                return total;
+            }
+        }
+        // the same Document value written twice in one thread => identical
+        {
+            let (p, cfg) = (c.program.clone(), c.cfg.clone());
+            let mut env = ProcEnv::fixed(e0.0);
+            env.entropy_mode = e0.1;
+            let o = in_case_thread(ctx, &env, 120_000, move |out| {
+                if let Ok((a, b)) = serialise_same_value_twice(&p, &cfg) {
+                    if a != b {
+                        out.violate("same-document-value-serialises-differently-the-second-time", first_diff(&a, &b));
+                    }
+                    out.bump("probe.same_value_written_twice", 1);
+                }
+            });
+            for (k, v) in &o.counters {
+                if !k.starts_with("max.") {
+                    total.bump(k, *v);
+                }
+            }
+            if let Some(v) = o.violation {
+                total.violate(&v.class, format!("config {}: {}", c.cfg.label(), v.detail));
                 return total;
             }
         }
